@@ -41,7 +41,8 @@ Definition pump_one (s : state) (c : N) : pump_move :=
         | None => of_opt (step s (EDrain c))
         end
       else of_opt (step s (ECloseEnd c))
-  | PNone => PMRest
+  | PNone =>        (* Close of a client that never subscribed: wg.Wait() returns at once *)
+      if c_closing cl && negb (c_closed cl) then of_opt (step s (ECloseEnd c)) else PMRest
   end.
 
 Fixpoint pump_client_nd (fuel : nat) (s : state) (c : N) : list state :=
@@ -247,12 +248,8 @@ Definition check_case (c : case) : verdict :=
       let d := disciplined [] ops in
       let steps' := map (fun x => (fst x, ob_comps (snd x))) steps in
       let s12 := no_panic ops && (negb d || (own_reply [] ops && at_most_once ops)) in
-      let s3 := after_close true [] [] false steps' in
-      let s3sub := after_close false [] [] false steps' in
+      let s3 := after_close [] false steps' in
       let s4 := no_block_forever ops still in
-      let kf := if negb s12 then 0
-                else if negb s3 then (if s3sub then 2 else 0)
-                else 0 in   (* a send still parked after Queue.Close (clause 4) matches no known finding *)
-      (m, s12 && s3 && s4, kf)
+      (m, s12 && s3 && s4, 0)     (* no open known finding: every spec failure is a violation *)
   | Concurrent log => mk_verdict true (conc_ok log)
   end.
